@@ -20,9 +20,17 @@ def _units(u):
     return None if canon.is_empty(u) else str(u).strip().lower()
 
 
+def _attr(o, name):
+    try:
+        return getattr(o, name)
+    except AttributeError:
+        return "<attribute %s missing>" % name  # e.g. a slot that was not restored by a binary load
+
+
 def ts_proj(ts):
     """(units, sigma, assumption, ((t, v), ...))"""
-    return (_units(ts.units), _f(ts.sigma), _f(ts.assumption), tuple((float(t), float(v)) for t, v in zip(ts.t, ts.vals)))
+    u, sg, a = _attr(ts, "units"), _attr(ts, "sigma"), _attr(ts, "assumption")
+    return (u if isinstance(u, str) and u.startswith("<attribute") else _units(u), sg if isinstance(sg, str) else _f(sg), a if isinstance(a, str) else _f(a), tuple((float(t), float(v)) for t, v in zip(_attr(ts, "t"), _attr(ts, "vals"))))
 
 
 def proj_data(D):
